@@ -41,11 +41,20 @@ func init() {
 }
 
 func (s *nestedSpace) Build(path []Op) (*World, error) {
-	w, err := s.baseSpace.Build(path)
-	if w != nil {
-		w.OpMaps = func(c *Cont) bool { return true }
+	w := s.newWorld()
+	w.TrackStale = s.detach
+	w.OpMaps = func(c *Cont) bool { return true }
+	for _, op := range s.seed {
+		if err := w.Apply(op); err != nil {
+			return nil, fmt.Errorf("seed op %s: %w", op, err)
+		}
 	}
-	return w, err
+	for _, op := range path {
+		if err := w.Apply(op); err != nil {
+			return nil, err
+		}
+	}
+	return w, nil
 }
 
 func depthOf(c *Cont) int {
@@ -187,6 +196,11 @@ func (s *nestedSpace) Ops(w *World) []Op {
 		}
 		if s.detach && c.Parent == nil && !isRoot {
 			ops = append(ops, Op{K: "dispose", C: c.Serial})
+		}
+		// mutation through the handle held before detachment, while the container lives elsewhere
+		// (or nowhere) through the handle obtained from the value handed back
+		if s.detach && (c.StaleArr != nil || c.StaleMap != nil) && c.FormerParent != nil && !c.FormerParent.Dead && !isAncestor(c.FormerParent, c) && !isAncestor(c, c.FormerParent) {
+			ops = append(ops, Op{K: "stalemut", C: c.Serial})
 		}
 	}
 	if s.spec.Has("events") {
